@@ -10,7 +10,7 @@ func init() {
 		r.Explanation = "Structural necessary conditions, decided for all inputs at once: " +
 			"(C10-fields) every Service/Ingress/Route field the statement names is read on the list path; " +
 			"(C10-port) decision table of the service-port designation: name (non-empty) or number, targetPort only for Route-designated ports, pod port = targetPort defaulting to port, unspecified port = all ports; how Ingress and Route backends are turned into the required port; " +
-			"(C10-tcp) a port is granted only if it is a TCP container port of the same workload, named target ports are resolved on that workload, the protocol filter tests each container port; " +
+			"(C10-tcp) a port is granted only if it is a TCP container port of the same workload, named target ports are resolved on that workload, a container port is recorded as exposed only on a path that entails that its OWN protocol is unset or TCP; " +
 			"(C10-policy) by SSA value identity the entry's own set is intersected with the verdict from the fixed, unlabeled fake pod to that entry's peer, and the row / the warning are the two arms of the emptiness test; " +
 			"(C10-ns) objects are stored under their own namespace/name, services are looked up under the Ingress/Route namespace, workloads are selected by the service selector within the service namespace, repeated hits accumulate by Union; " +
 			"(C10-loop) a struct local updated field by field in a loop of the ingress analyzer (the pod access port) is a fresh variable of each iteration; " +
